@@ -22,12 +22,13 @@ FINDINGS_FILE = VERIF / "known_findings.txt"
 
 # the harness always imports the working tree of the repository under test
 sys.path.insert(0, str(REPO))
+# The library runs in the environment a user's process has: NumPy's default floating-point error state (warnings, not silence - code that turns
+# a RuntimeWarning into behaviour must see it) and no environment variable announcing the harness (no source hook exists, MANIFEST.hooks).
+# Warnings are only kept off the terminal.
 warnings.filterwarnings("ignore")
-os.environ.setdefault("FROUROS_VERIF", "1")
 
 import numpy as np  # noqa: E402
 
-np.seterr(all="ignore")
 import logging  # noqa: E402
 
 logging.getLogger("frouros").setLevel(logging.CRITICAL)
